@@ -231,11 +231,24 @@ func (c16) Exec(sc *sim.Scenario, env *sim.Env) *sim.Violation {
 			acap += int(tailSize) / 2
 		}
 	}
+	var guards [][]byte
 	mk := func(n int) []byte {
 		if nilTargets {
 			return nil
 		}
-		return make([]byte, n)
+		t, g := mkTarget(n, sc.Seed&2 == 2)
+		if g != nil {
+			guards = append(guards, g)
+		}
+		return t
+	}
+	guardsOK := func() bool {
+		for _, g := range guards {
+			if !guardIntact(g) {
+				return false
+			}
+		}
+		return true
 	}
 	aTarget := mk(acap)
 	var aTargetAtClone []byte
@@ -311,6 +324,9 @@ func (c16) Exec(sc *sim.Scenario, env *sim.Env) *sim.Violation {
 			fits := nilTargets || snapA.snap.Len+eBefore.Len <= snapA.snap.Cap
 			p, pv := sim.RecoverLib(func() { a.Append(e) })
 			env.ObsBool(p)
+			if !guardsOK() {
+				return &sim.Violation{Oracle: "wrote_beyond_target", Step: i, Msg: "Append wrote behind a target slice (cap(target) > len(target))"}
+			}
 			if p != !fits {
 				return &sim.Violation{Oracle: "append_refusal_mismatch", Step: i,
 					Msg: fmt.Sprintf("Append of %d bytes into Len=%d Cap=%d: fits=%v but panicked=%v (%s)", eBefore.Len, snapA.snap.Len, snapA.snap.Cap, fits, p, sim.PanicString(pv))}
